@@ -7,7 +7,7 @@ from collections import defaultdict
 from itertools import product as py_product
 
 from sympy import (Basic, Expr, S, Mul as SymMul, Add as SymAdd, Derivative as SymDerivative,
-    fraction, sympify as sym_sympify)
+    fraction, sympify as sym_sympify, Pow as SymPow)
 from sympy.core import function as sym_fn
 from sympy.core.parameters import global_parameters
 from sympy.physics.units import Dimension
@@ -52,6 +52,12 @@ def is_vector_expr(value: Any) -> bool:  # pylint: disable=too-many-return-state
         _, denominator = fraction(value)
 
         if is_vector_expr(denominator):
+            return False
+
+        # a power of a vector expression (e.g. `1 / a**2` or `cross(a, b)**(-1)`) is not a scalar
+        if any(
+                isinstance(arg, SymPow) and arg.base != 0 and is_vector_expr(arg.base)
+                for arg in value.args):
             return False
 
         n_vectors = 0
